@@ -32,5 +32,6 @@ def shard(ctx: Ctx) -> None:
     sweep.standard_sweep(ctx, PROP)
     sweep.same_turn_pairs_sweep(ctx, PROP)
     sweep.stalled_connect_sweep(ctx, PROP)
+    sweep.abandoned_disconnect_sweep(ctx, PROP)
     kinds = ["force", "disconnect", "eof", "rst", "garbage", "bad_pb", "peer_disconnect", "sendfail", "writeraise", "silence", "cancel"]
     sweep.pair_sweep(ctx, PROP, 4000 if ctx.thorough else 250, kinds)
